@@ -108,6 +108,29 @@ def build_model():
     return True, ""
 
 
+def build_genmodel():
+    """GenExtract.vo -> extract/gen/model.ml -> extract/gen/genmodel (translated definitions)."""
+    gdir = os.path.join(EXTRACT, "gen")
+    binp = os.path.join(gdir, "genmodel")
+    rc, log, _ = make(["GenExtract.vo"])
+    if rc != 0:
+        try:
+            os.remove(binp)
+        except OSError:
+            pass
+        return False, log
+    ml = os.path.join(gdir, "model.ml")
+    src = open(os.path.join(EXTRACT, "driver.ml")).read().replace("(dispatch ", "(gen_dispatch ")
+    drv = os.path.join(gdir, "driver.ml")
+    if not os.path.exists(drv) or open(drv).read() != src:
+        open(drv, "w").write(src)
+    if (not os.path.exists(binp)) or os.path.getmtime(binp) < max(os.path.getmtime(ml), os.path.getmtime(drv)):
+        r = run(["ocamlfind", "ocamlopt", "-O3", "-w", "-a", "model.mli", "model.ml", "driver.ml", "-o", "genmodel"], cwd=gdir)
+        if r.returncode != 0:
+            return False, r.stderr
+    return True, ""
+
+
 def theorem_names(vfile):
     text = strip_comments(open(os.path.join(COQ, vfile)).read())
     return re.findall(r"^\s*(?:Theorem|Example|Corollary)\s+(\w+)", text, re.M)
@@ -186,6 +209,11 @@ def build_property(pid, cfg, thorough=False):
     ok, mlog = build_model()
     if not ok:
         res["reasons"].append("extracted model does not build: " + mlog[-300:])
+    if cfg.get("units"):
+        ok, glog = build_genmodel()
+        if not ok:
+            err = [l for l in glog.splitlines() if "Error" in l or l.startswith("File ")]
+            res["reasons"].append("translated definitions do not build/extract: " + " | ".join(err[:3]))
     # 5. thorough: independent checker
     if thorough and not res["reasons"] and cfg.get("coqchk", True):
         mods = [("B2Z." + f.replace(".v", "").replace("/", ".")) for f in cfg["props_files"]]
